@@ -53,6 +53,14 @@ def _sample(pids: list[int]) -> dict[tuple[int, int], tuple[str, int, int]]:
     return snap
 
 
+def _io_counters(pid: int) -> tuple:
+    try:
+        fields = dict(line.split(": ") for line in Path(f"/proc/{pid}/io").read_text().splitlines())
+        return tuple(int(fields[k]) for k in ("rchar", "wchar", "syscr", "syscw"))
+    except (OSError, KeyError, ValueError):
+        return ()
+
+
 def diagnose(pid: int, log_path: Path | None = None, samples: int = 5, span: float = 2.0,
              scope: str = "tree") -> dict:
     """Return {"verdict": "quiescent"|"active"|"gone", "threads": n, "stacks": str, ...}.
@@ -63,10 +71,12 @@ def diagnose(pid: int, log_path: Path | None = None, samples: int = 5, span: flo
     worker's threads, so their context-switch counters move."""
     pids = _descendants(pid) if scope == "tree" else [pid]
     snaps = []
+    io_before = _io_counters(pid)
     for k in range(samples):
         snaps.append(_sample(pids))
         if k + 1 < samples:
             time.sleep(span / (samples - 1))
+    io_after = _io_counters(pid)
     if not snaps[0]:
         return {"verdict": "gone", "threads": 0, "stacks": ""}
     keys = set(snaps[0])
@@ -81,7 +91,7 @@ def diagnose(pid: int, log_path: Path | None = None, samples: int = 5, span: flo
         series = [snap.get(key) for snap in snaps]
         if any(s is None for s in series):
             continue
-        if any(s[0] not in ("S", "D", "I") for s in series):
+        if any(s[0] not in ("S", "D", "I", "Z", "X") for s in series):   # zombies are not running
             active_reasons.append(f"thread {key} runnable")
         cpu_total += series[-1][1] - series[0][1]
         if scope == "tree":
@@ -91,6 +101,9 @@ def diagnose(pid: int, log_path: Path | None = None, samples: int = 5, span: flo
                 active_reasons.append(f"thread {key} context switches moved")
         elif series[-1][2] != series[0][2]:
             polling += 1
+    if scope != "tree" and io_before != io_after:
+        # a worker paced by a slow external feeder uses almost no CPU but keeps reading: that is progress
+        active_reasons.append(f"process did I/O ({io_before} -> {io_after})")
     if scope != "tree" and cpu_total > 2:
         # "process" scope: a CPython thread waiting for the GIL wakes every 5 ms (timed condition wait) without
         # getting anywhere, so context switches alone do not show progress; what counts is CPU time: at most
